@@ -196,6 +196,238 @@ func runC04(r *kit.Run) {
 		}
 		c04Batch(r, i, r.Rng("batch", i))
 	}
+	ns := int64(r.Scale(48, 2400))
+	for i := int64(0); i < ns && !r.Stopped(); i++ {
+		if !r.Mine(i) {
+			continue
+		}
+		c04Shared(r, i, r.Rng("shared", i))
+	}
+	nf := int64(r.Scale(48, 2400))
+	for i := int64(0); i < nf && !r.Stopped(); i++ {
+		if !r.Mine(i) {
+			continue
+		}
+		c04Failing(r, i, r.Rng("failing", i))
+	}
+}
+
+// c04Shared: several consumers share the output of one buffered stage
+// whose source stalls (in a call that ignores its context) after a few
+// items. The consumers race for the last buffered items and park; then
+// the context they passed to ReadOne is cancelled: every one of them must
+// return although the source is still stalled. Many trials per case,
+// the stall is released only after the verdict.
+func c04Shared(r *kit.Run, idx int64, rng *rand.Rand) {
+	construct := []string{"Buffer", "ParallelBuffer", "Buffer", "Map(Buffer)"}[int(idx)%4]
+	readers := 2 + rng.IntN(3)
+	procs := []int{2, 4, 16, 16}[rng.IntN(4)]
+	trials := 250
+	desc := map[string]any{"mode": "shared-readers", "construct": construct, "readers": readers, "trials": trials, "stop": "cancel the readers' context while the source is stalled", "gomaxprocs": procs}
+	r.EvalN(int64(trials))
+	r.Current(idx, fmt.Sprintf("shared %v", desc))
+	inconclusive, problem := "", ""
+	done := 0
+	kit.WithProcs(procs, func() {
+		if base, q := kit.Quiesce(c04Watchdog); !q || len(relevantLeft(base)) > 0 {
+			inconclusive = "the process is not clean before the case"
+			return
+		}
+		for t := 0; t < trials && problem == "" && inconclusive == ""; t++ {
+			n := 1 + rng.IntN(8)
+			nbuf := 1 + rng.IntN(4)
+			slow := rng.IntN(3)
+			gate := make(chan struct{})
+			var i atomic.Int64
+			src := fun.Generator(func(context.Context) (int, error) {
+				k := int(i.Add(1))
+				if k > n {
+					<-gate // stalled: this call does not look at its context
+					return 0, io.EOF
+				}
+				if slow > 0 {
+					kit.Yields(slow)
+				}
+				return k, nil
+			})
+			var it *fun.Iterator[int]
+			switch construct {
+			case "Buffer":
+				it = src.Buffer(nbuf)
+			case "ParallelBuffer":
+				it = src.ParallelBuffer(nbuf)
+			default:
+				it = fun.Map(src.Buffer(nbuf), func(_ context.Context, v int) (int, error) { return v, nil }, fun.WorkerGroupConfNumWorkers(2)).Buffer(nbuf)
+			}
+			ctx, cancel := context.WithCancel(context.Background())
+			var consumed, returned atomic.Int64
+			bar := kit.NewBarrier(readers)
+			for c := 0; c < readers; c++ {
+				go func() {
+					bar.Wait()
+					for {
+						if _, err := it.ReadOne(ctx); err != nil {
+							break
+						}
+						consumed.Add(1)
+					}
+					returned.Add(1)
+				}()
+			}
+			if met, q, cs := kit.Await(5*time.Second, c04Watchdog, func() bool { return consumed.Load() == int64(n) }); !met {
+				if q {
+					problem = fmt.Sprintf("trial %d: %d of %d items reached the %d consumers of one %s(%d) output and nothing moves any more; at quiescence: %v", t, consumed.Load(), n, readers, construct, nbuf, clipStrs(cs.Describe(), 10))
+				} else {
+					inconclusive = "items not consumed, not quiescent"
+				}
+				close(gate)
+				cancel()
+				return
+			}
+			kit.Yields(rng.IntN(6))
+			cancel()
+			met, q, cs := kit.Await(5*time.Second, c04Watchdog, func() bool { return returned.Load() == int64(readers) })
+			if !met {
+				if q {
+					problem = fmt.Sprintf("trial %d: %d of %d consumers blocked in ReadOne on one %s(%d) output did not return after their context was cancelled (the source is stalled after %d items); at quiescence: %v", t, int64(readers)-returned.Load(), readers, construct, nbuf, n, clipStrs(cs.Describe(), 10))
+				} else {
+					inconclusive = "consumers not released, not quiescent"
+				}
+			}
+			close(gate)
+			_ = it.Close()
+			done++
+		}
+		if problem != "" || inconclusive != "" {
+			return
+		}
+		cs, q := kit.Quiesce(c04Watchdog)
+		if !q {
+			inconclusive = "not quiescent after the case"
+			return
+		}
+		if left := relevantLeft(cs); len(left) > 0 {
+			problem = fmt.Sprintf("%d goroutine(s) started on behalf of %d %s pipelines are still alive at quiescence after the stalled sources were released: %v", len(left), trials, construct, clipStrs(cs.Describe(), 10))
+		}
+	})
+	if inconclusive != "" {
+		r.Inconclusive("C04 shared readers: " + inconclusive)
+		return
+	}
+	if problem != "" {
+		sig := "consumer-stuck"
+		if strings.Contains(problem, "still alive") {
+			sig = "goroutine-leak"
+		}
+		r.Violation("C04/"+construct+"/"+sig, idx, desc, problem, nil)
+		return
+	}
+	r.Count("shared_reader_trials", int64(done))
+	r.Distinct(fmt.Sprintf("shared|%s|r=%d|p=%d", construct, readers, procs))
+}
+
+// c04Failing: worker-group stages whose user function fails (abort mode)
+// almost at once, with many workers, so that the failure lands while the
+// group is still being started. The consumer must reach the end (an error
+// or io.EOF), the Worker must return, and nothing may be left behind.
+func c04Failing(r *kit.Run, idx int64, rng *rand.Rand) {
+	construct := []string{"GenerateParallel", "Map", "ProcessParallel", "GenerateParallel"}[int(idx)%4]
+	w := []int{2, 8, 32, 64}[rng.IntN(4)]
+	procs := []int{1, 2, 4, 16}[rng.IntN(4)]
+	trials := 120
+	desc := map[string]any{"mode": "failing-function", "construct": construct, "workers": w, "trials": trials, "gomaxprocs": procs}
+	r.EvalN(int64(trials))
+	r.Current(idx, fmt.Sprintf("failing %v", desc))
+	inconclusive, problem := "", ""
+	boom := errors.New("boom")
+	kit.WithProcs(procs, func() {
+		if base, q := kit.Quiesce(c04Watchdog); !q || len(relevantLeft(base)) > 0 {
+			inconclusive = "the process is not clean before the case"
+			return
+		}
+		var finished atomic.Int64
+		var cur atomic.Int64
+		go func() {
+			for t := 0; t < trials; t++ {
+				cur.Store(int64(t))
+				okBefore := rng.IntN(3)
+				ctx, cancel := context.WithCancel(context.Background())
+				var i atomic.Int64
+				fail := func() error {
+					if int(i.Add(1)) > okBefore {
+						return boom
+					}
+					return nil
+				}
+				nw := fun.WorkerGroupConfNumWorkers(w)
+				switch construct {
+				case "GenerateParallel":
+					it := fun.Producer[int](func(context.Context) (int, error) {
+						if err := fail(); err != nil {
+							return 0, err
+						}
+						return 1, nil
+					}).GenerateParallel(nw)
+					for {
+						if _, err := it.ReadOne(ctx); err != nil {
+							break
+						}
+					}
+					_ = it.Close()
+				case "Map":
+					it := fun.Map(c04Source(w*4+8, false), func(_ context.Context, v int) (int, error) { return v, fail() }, nw)
+					for {
+						if _, err := it.ReadOne(ctx); err != nil {
+							break
+						}
+					}
+					_ = it.Close()
+				default:
+					_ = c04Source(w*4+8, false).ProcessParallel(func(context.Context, int) error { return fail() }, nw).Run(ctx)
+				}
+				cancel() // the context stays live until the trial has ended
+				finished.Add(1)
+			}
+		}()
+		met, q, cs := kit.Await(30*time.Second, c04Watchdog, func() bool { return finished.Load() == int64(trials) })
+		if !met {
+			if q {
+				problem = fmt.Sprintf("trial %d: a %s stage with %d workers whose function fails right away never ended (no error, no io.EOF) although its context is live; at quiescence: %v", cur.Load(), construct, w, clipStrs(cs.Describe(), 10))
+			} else {
+				inconclusive = "trials did not finish, not quiescent"
+			}
+			return
+		}
+		cs, q = kit.Quiesce(c04Watchdog)
+		if !q {
+			inconclusive = "not quiescent after the case"
+			return
+		}
+		if left := relevantLeft(cs); len(left) > 0 {
+			problem = fmt.Sprintf("%d goroutine(s) started on behalf of %d failing %s stages are still alive at quiescence: %v", len(left), trials, construct, clipStrs(cs.Describe(), 10))
+		}
+	})
+	if inconclusive != "" {
+		r.Inconclusive("C04 failing function: " + inconclusive)
+		return
+	}
+	if problem != "" {
+		sig := "no-termination"
+		if strings.Contains(problem, "still alive") {
+			sig = "goroutine-leak"
+		}
+		r.Violation("C04/"+construct+"/"+sig, idx, desc, problem, nil)
+		return
+	}
+	r.Count("failing_function_trials", int64(trials))
+	r.Distinct(fmt.Sprintf("failing|%s|w=%d|p=%d", construct, w, procs))
+}
+
+func clipStrs(d []string, n int) []string {
+	if len(d) > n {
+		return d[:n]
+	}
+	return d
 }
 
 // c04Batch runs many early-stopped pipelines back to back (several
